@@ -247,3 +247,8 @@ def _r4_6(ctx):
   want = sorted(['Ge(self.height,Settings::first_inscription_height(self.index.settings))', 'self.index.index_inscriptions'])
   alt = sorted(['Le(Settings::first_inscription_height(self.index.settings),self.height)', 'self.index.index_inscriptions'])
   ctx.ob('R4.6', b.n, 'index_inscriptions = height >= first_inscription_height() ∧ index.index_inscriptions', atoms in (want, alt), f'{atoms}', where(b, b.line))
+
+
+# sensitivity pack (thorough tier): each seeded edit must be reported by the named rule instance
+MUTANTS = [{'name': 'seeded-C04-a', 'patch': 'C04-a/patch.diff', 'expect': ('R4.2', 'Updater::commit', '')},
+           {'name': 'seeded-C04-b', 'patch': 'C04-b/patch.diff', 'expect': ('R4.6', 'index_utxo_entries', 'first_inscription_height')}]
